@@ -24,6 +24,8 @@
 #include <dlfcn.h>
 #include <fcntl.h>
 #include <ftw.h>
+#include <pthread.h>
+#include <time.h>
 #include <stdarg.h>
 #include <sys/stat.h>
 #include <unistd.h>
@@ -113,6 +115,10 @@ extern "C" FILE* fopen64(const char* path, const char* mode) {
   return real(redirect(path, s), mode);
 }
 
+static pthread_t g_main_thread;
+static int g_interrupted_writes = 0;
+static std::map<std::string, int> g_slow;  // cgroup (relative) -> ms a helper-thread write to its memory.high blocks
+
 extern "C" ssize_t write(int fd, const void* buf, size_t n) {
   using fn_t = ssize_t (*)(int, const void*, size_t);
   static fn_t real = (fn_t)dlsym(RTLD_NEXT, "write");
@@ -135,11 +141,33 @@ extern "C" ssize_t write(int fd, const void* buf, size_t n) {
         ev["f"] = base;
       }
       ev["v"] = std::string((const char*)buf, n);
+      int slowMs = 0;
       {
         std::lock_guard<std::mutex> g(g_mu);
-        g_events.append(ev);
+        // a write issued from Senpai's time-out helper thread to a cgroup listed in the tick's "slow" map behaves like the
+        // kernel's memory.high write that blocks in reclaim: the value takes effect, then the call blocks until a signal
+        // interrupts it (EINTR) or the time is over.  An interrupted call is retried by the writer (Fs::writeFull); the
+        // trace shows one event per write that returned, so a retry is not mistaken for a second poke
+        if (!pthread_equal(pthread_self(), g_main_thread) && base == "memory.high") {
+          auto it = g_slow.find(ev["cg"].asString());
+          if (it != g_slow.end()) slowMs = it->second;
+        }
+        if (slowMs == 0) g_events.append(ev);
       }
       if (::ftruncate(fd, 0)) {}
+      if (slowMs > 0) {
+        ssize_t rc = real(fd, buf, n);
+        struct timespec ts = {slowMs / 1000, (slowMs % 1000) * 1000000L};
+        if (::nanosleep(&ts, nullptr) != 0 && errno == EINTR) {
+          std::lock_guard<std::mutex> g(g_mu);
+          g_interrupted_writes++;
+          errno = EINTR;
+          return -1;
+        }
+        std::lock_guard<std::mutex> g(g_mu);
+        g_events.append(ev);
+        return rc;
+      }
     }
   }
   return real(fd, buf, n);
@@ -266,6 +294,7 @@ void runScenario(const Json::Value& sc, Json::Value& out) {
   vh::writeFile(g_root + "/proc/swappiness", "60\n");
 
   out["ticks"] = Json::Value(Json::arrayValue);
+  g_interrupted_writes = 0;
   {
     std::unique_ptr<Engine::BasePlugin> plugin(getPluginRegistry().create("senpai"));
     if (!plugin) {
@@ -323,6 +352,13 @@ void runScenario(const Json::Value& sc, Json::Value& out) {
           std::lock_guard<std::mutex> g(g_mu);
           g_events = Json::Value(Json::arrayValue);
         }
+        {
+          std::lock_guard<std::mutex> g(g_mu);
+          g_slow.clear();
+          const Json::Value& sl = tick["slow"];
+          for (auto it = sl.begin(); it != sl.end(); ++it) g_slow[it.key().asString()] = it->asInt();
+          g_main_thread = pthread_self();
+        }
         g_rec = true;
         try {
           plugin->run(ctx);
@@ -336,6 +372,7 @@ void runScenario(const Json::Value& sc, Json::Value& out) {
           }
         }
         out["ticks"].append(g_events);
+        out["interrupted_writes"] = g_interrupted_writes;
         if (out["outcome"].asString() != "ok") break;
       }
     }
